@@ -71,3 +71,8 @@ use group::*;
 
 mod run;
 pub use run::*;
+
+#[cfg(slotted_egraphs_verif)]
+mod verif_hooks;
+#[cfg(slotted_egraphs_verif)]
+pub use verif_hooks::*;
